@@ -44,6 +44,21 @@ CLAIMED["C10"] = dict(
     technique="contract-based deductive verification: VC generation from the real AST + SMT; iff-contracts on normal and exceptional exits; bounded native stand-in",
 )
 
+CLAIMED["C01"] = dict(
+    category="proof",
+    text="The op-list primitives (Block.insert_op_before/after/add_op/detach_op with Operation._insert_next_op/_insert_prev_op/_attach_op), "
+         "the use-list primitives (IRWithUses.add_use/remove_use) and operand/successor assignment (OpOperands/OpSuccessors.__setitem__) are "
+         "verified on a field-array heap from ANY heap satisfying the global representation invariant (link symmetry, parent agreement, end "
+         "pointers, ghost dense position forcing exactly-once traversal; use <-> operand linkage), re-establishing it for ALL objects with exact "
+         "view updates and frames, including state preservation on rejected calls. The remaining writers of link fields are listed by an AST scan "
+         "and covered by a bounded explorer (seeded sequences of 27 kinds of public mutation calls with a full invariant checker after each).",
+    note="Proved: 10 of the 27 functions that assign link fields. Block-list, argument/result/region-list primitives, setters, split/move/erase "
+         "family and the Rewriter/PatternRewriter composites are bounded only. Assumed: finite heap; is_ancestor pure (trusted); "
+         "TestSpecialisedConstantFoldingPass excluded; pyvc + z3 trusted.",
+    design="§4 C01",
+    technique="contract-based deductive verification on a field-array heap (global representation invariant, ghost positions, frames), SMT-discharged; encapsulation scan; bounded explorer",
+)
+
 NOT_APPLICABLE = {
     "C04": "whole Printer∘Parser composition over every dialect: recursive string programs; no per-function contract within reach of the SMT-backed generator expresses it",
     "C05": "about 80 dialects of hand-written print/parse pairs and a format-string interpreter; same obstacle as C04",
@@ -57,7 +72,7 @@ NOT_APPLICABLE = {
     "C28": "result preservation of an e-graph pipeline: whole-program statement with no per-function postcondition implying it",
 }
 
-NOT_REACHED = ["C01", "C02", "C03", "C06", "C08", "C09", "C11", "C13", "C14", "C18", "C19", "C20", "C24", "C25", "C26", "C29"]
+NOT_REACHED = ["C02", "C03", "C06", "C08", "C09", "C11", "C13", "C14", "C18", "C19", "C20", "C24", "C25", "C26", "C29"]
 
 
 def main():
